@@ -741,6 +741,95 @@ def end_to_end_smoke(rng, n, out):
     return done, mism
 
 
+def end_to_end_actions(rng, n, out):
+    """Statements that write ACTION parameters: `match XAction(p=..).Started()/…Updated(..)/Finished(..)`.
+    Two or three actions of one type are started with different arguments; every action's
+    Started / ScriptUpdated / Finished event is then delivered.  Documented rule: the statement
+    advances exactly on an event of an action whose start arguments match the written action
+    parameters (partial match) and whose event parameters match the written event parameters."""
+    from harness import v2util
+
+    def lit(x):
+        if isinstance(x, re.Pattern):
+            return 'regex("%s")' % x.pattern
+        if isinstance(x, str):
+            return '"%s"' % x
+        return repr(x)
+
+    vals = ["Hi", "Bye", "Hi there", "yo"]
+    done = 0
+    mism = []
+    skipped = 0
+    tries = 0
+    while done < n and tries < n * 10:
+        tries += 1
+        k = rng.choice([2, 2, 3])
+        starts = []
+        for _ in range(k):
+            a = {"script": rng.choice(vals)}
+            if rng.random() < 0.5:
+                a["intensity"] = rng.choice([1, 2, 1.5])
+            starts.append(a)
+        # written action parameters: subset of one action's args, possibly altered / regex
+        base = rng.choice(starts)
+        apat = {}
+        for key, v in base.items():
+            r = rng.random()
+            if r < 0.55:
+                apat[key] = v
+            elif r < 0.7:
+                apat[key] = re.compile("^" + v[:1]) if isinstance(v, str) else v
+            elif r < 0.85:
+                apat[key] = rng.choice(vals) if isinstance(v, str) else rng.choice([1, 2, 1.5])
+        kind = rng.choice(["Started", "ScriptUpdated", "Finished"])
+        epat, evargs = {}, {}
+        if kind == "ScriptUpdated":
+            evargs = {"interim_script": rng.choice(["H", "By"])}
+            if rng.random() < 0.6:
+                epat = {"interim_script": rng.choice(["H", "By"])}
+        elif kind == "Finished":
+            evargs = {"final_script": rng.choice(vals), "is_success": True}
+            if rng.random() < 0.6:
+                epat = {"final_script": rng.choice([evargs["final_script"], rng.choice(vals)])}
+        ap = ", ".join(f"{k_}={lit(v)}" for k_, v in apat.items())
+        ep = ", ".join(f"{k_}={lit(v)}" for k_, v in epat.items())
+        src = "flow main\n" + "".join(
+            "  start UtteranceBotAction(%s)\n" % ", ".join(f"{k_}={lit(v)}" for k_, v in a.items()) for a in starts
+        ) + f"  match UtteranceBotAction({ap}).{kind}({ep})\n  send Done()\n  match Never()\n"
+        try:
+            st = v2util.start_main(v2util.init_state(src))
+        except Exception:
+            skipped += 1
+            continue
+        sent = [e for e in st.outgoing_events if e["type"] == "StartUtteranceBotAction"]
+        if len(sent) != k:
+            skipped += 1   # identical actions are merged by the interpreter
+            continue
+        order = list(range(k))
+        rng.shuffle(order)
+        fired_at = None
+        want_at = None
+        try:
+            for step_i, idx in enumerate(order):
+                ev = {"type": "UtteranceBotAction" + kind, "action_uid": sent[idx]["action_uid"], **evargs}
+                st = v2util.step(st, ev)
+                if fired_at is None and "Done" in v2util.out_types(st):
+                    fired_at = step_i
+                if want_at is None and spec_matches(apat, starts[idx]) and spec_matches(epat, evargs):
+                    want_at = step_i
+        except Exception as e:
+            mism.append({"src": src, "order": order, "exception": repr(e), "sig": "action-statement-match-raises"})
+            continue
+        done += 1
+        if fired_at != want_at:
+            mism.append({"src": src, "order": order, "event_kind": kind, "event_args": evargs,
+                         "fired_at_step": fired_at, "documented_step": want_at,
+                         "sig": "action-statement-parameters-not-matched:" + kind})
+    out.coverage["e2e_action_statement_cases"] = done
+    out.coverage["e2e_action_statement_skipped"] = skipped
+    return done, mism
+
+
 def run(tier, seed, replay=None):
     global FILTER, INTERNAL_ALL
     out = C.Outcome(PID, tier, seed)
@@ -924,6 +1013,15 @@ def run(tier, seed, replay=None):
         e2e_n, e2e_bad = end_to_end_smoke(rng, n_e2e, out)
         for m in e2e_bad[:20]:
             out.findings.append(C.Finding(m.get("sig", "end-to-end-match-differs"), "flow with `match` reacts differently from the documented rules", {"kind": "e2e", **m}))
+
+    act_n, act_bad = (0, [])
+    if n_e2e:
+        act_n, act_bad = end_to_end_actions(rng, n_e2e, out)
+        for m in act_bad[:20]:
+            out.findings.append(C.Finding(m.get("sig", "action-statement-match-differs"),
+                                          "statement with action parameters reacts differently from the documented rules",
+                                          {"kind": "e2e-action", **m}))
+    e2e_n += act_n
 
     out.coverage.update({
         "evaluations": len(terms) + len(ev_terms) + e2e_n,
